@@ -1665,3 +1665,210 @@ func ruleNestedUntainted(r *Run) {
 	}
 	r.Min("recursive_template_expansions", n, 1)
 }
+
+// ---------------------------------------------------------------------------
+// R-POOL-ESCAPE (C07, C20): an object taken from a package-level sync.Pool is shared by every caller
+// in the process.  Nothing derived from it (the byte slice of a pooled bytes.Buffer, the object
+// itself) may be returned to the caller: the next Get reuses the memory and the earlier result
+// silently changes.
+// ---------------------------------------------------------------------------
+
+func rulePoolEscape(pkgs ...string) func(r *Run) {
+	return func(r *Run) {
+		p := r.P
+		nPools := 0
+		for _, pp := range pkgs {
+			sp := p.SSAPkg[pp]
+			if sp == nil {
+				continue
+			}
+			var names []string
+			for n, m := range sp.Members {
+				if g, ok := m.(*ssa.Global); ok && containsType(derefType(g.Type()), "sync", "Pool") {
+					names = append(names, n)
+				}
+			}
+			sort.Strings(names)
+			for _, n := range names {
+				g := sp.Members[n].(*ssa.Global)
+				nPools++
+				bad := ""
+				for _, fn := range p.ModFuncs() {
+					allInstrs(fn, func(in ssa.Instruction) {
+						c, ok := in.(*ssa.Call)
+						if !ok || calleeName(c) != "(*sync.Pool).Get" || len(c.Call.Args) == 0 {
+							return
+						}
+						if rootsOf(c.Call.Args[0])[g] == false && c.Call.Args[0] != ssa.Value(g) {
+							return
+						}
+						// forward closure of the pooled object, through type assertions, method calls on it
+						derived := map[ssa.Value]bool{c: true}
+						for changed := true; changed; {
+							changed = false
+							allInstrs(fn, func(in2 ssa.Instruction) {
+								// results spilled to a local because of a defer: `*t0 = v … return *t0`
+								if st, ok := in2.(*ssa.Store); ok && derived[st.Val] {
+									// …or kept in a field of a local object that is then used (writer.output = buf)
+									if al := allocBase(st.Addr); al != nil && !derived[al] {
+										derived[al] = true
+										changed = true
+									}
+									return
+								}
+								v, ok := in2.(ssa.Value)
+								if !ok || derived[v] {
+									return
+								}
+								for _, op := range in2.Operands(nil) {
+									if *op != nil && derived[*op] {
+										if call, isCall := in2.(*ssa.Call); isCall {
+											// only results that can alias the receiver's memory
+											ptr := isPointerLike(call.Type())
+											if tu, ok := call.Type().(*types.Tuple); ok {
+												for i := 0; i < tu.Len(); i++ {
+													if isPointerLike(tu.At(i).Type()) {
+														ptr = true
+													}
+												}
+											}
+											if !ptr {
+												return
+											}
+										}
+										derived[v] = true
+										changed = true
+										return
+									}
+								}
+							})
+						}
+						for _, ret := range returnsOf(fn) {
+							for _, rv := range ret.Results {
+								if derived[rv] && isPointerLike(rv.Type()) {
+									bad = fmt.Sprintf("%s returns a %s that aliases an object taken from the pool (%s)", shortName(fn), rv.Type(), p.pos(ret.Pos()))
+								}
+							}
+						}
+					})
+				}
+				r.Check("pool-escape", strings.TrimPrefix(pp, modPath+"/pkg/")+"."+n, g.Pos(), bad == "",
+					fmt.Sprintf("package-level pool %s: %s", n, map[bool]string{true: "nothing taken from it is handed to callers", false: bad + ": a result obtained earlier (by this or another document) is overwritten by the next call"}[bad == ""]))
+			}
+		}
+		r.Count("package_level_pools", nPools)
+		if nPools == 0 {
+			r.Trivial("pool-escape", "none", token.NoPos, true, "no package-level sync.Pool in the analysed packages")
+		}
+	}
+}
+
+func containsType(t types.Type, pkg, name string) bool {
+	seen := map[types.Type]bool{}
+	var walk func(t types.Type) bool
+	walk = func(t types.Type) bool {
+		if t == nil || seen[t] {
+			return false
+		}
+		seen[t] = true
+		if typeIs(t, pkg, name) {
+			return true
+		}
+		switch x := t.Underlying().(type) {
+		case *types.Struct:
+			for i := 0; i < x.NumFields(); i++ {
+				if walk(x.Field(i).Type()) {
+					return true
+				}
+			}
+		case *types.Pointer:
+			return walk(x.Elem())
+		case *types.Array:
+			return walk(x.Elem())
+		}
+		return false
+	}
+	return walk(t)
+}
+
+// ---------------------------------------------------------------------------
+// R-MARSHAL-PURE (C03, C08): serialising must not change the model.  A custom MarshalXML (and
+// everything it calls) may not store through its receiver — including the implicit store of
+// `append(recv.f[:0], …)`, the "filter in place" idiom, which shifts the elements of the live
+// list while the document is being saved.
+// ---------------------------------------------------------------------------
+
+func ruleMarshalPure(r *Run) {
+	p := r.P
+	ms := newMutSummary(p, false)
+	ms.computeAll()
+	n := 0
+	for _, fn := range p.ModFuncs() {
+		if fn.Name() != "MarshalXML" || fn.Signature.Recv() == nil || fn.Pkg == nil || len(fn.Params) == 0 {
+			continue
+		}
+		n++
+		bad := ""
+		for _, s := range ms.Params(fn)[0] {
+			bad = fmt.Sprintf("store at %s (in %s)", p.pos(s.Instr.Pos()), shortName(s.Fn))
+			break
+		}
+		// appends that reuse the receiver's backing array
+		for _, g := range sortedFuncs(p.staticReach(fn)) {
+			allInstrs(g, func(in ssa.Instruction) {
+				c, ok := in.(*ssa.Call)
+				if !ok {
+					return
+				}
+				if b, ok := c.Call.Value.(*ssa.Builtin); !ok || b.Name() != "append" {
+					return
+				}
+				// accumulator origin: a reslice of memory rooted at the receiver
+				seen := map[ssa.Value]bool{}
+				var chase func(v ssa.Value) *ssa.Slice
+				chase = func(v ssa.Value) *ssa.Slice {
+					if v == nil || seen[v] {
+						return nil
+					}
+					seen[v] = true
+					switch x := v.(type) {
+					case *ssa.Phi:
+						for _, e := range x.Edges {
+							if s := chase(e); s != nil {
+								return s
+							}
+						}
+					case *ssa.Call:
+						if b, ok := x.Call.Value.(*ssa.Builtin); ok && b.Name() == "append" {
+							return chase(x.Call.Args[0])
+						}
+					case *ssa.Slice:
+						if x.Max == nil {
+							return x
+						}
+					}
+					return nil
+				}
+				sl := chase(c.Call.Args[0])
+				if sl == nil || g != fn {
+					return
+				}
+				for rt := range rootsOf(sl.X) {
+					if rt == ssa.Value(fn.Params[0]) {
+						bad = fmt.Sprintf("append at %s writes into the backing array of a slice of the receiver (%s)", p.pos(c.Pos()), pathString(stripLoadsAddr(sl.X)))
+					}
+				}
+			})
+		}
+		r.Check("marshal-pure", shortName(fn), fn.Pos(), bad == "",
+			fmt.Sprintf("%s %s", shortName(fn), map[bool]string{true: "does not modify the value it serialises", false: "modifies the value it serialises: " + bad + " — after a save the in-memory document differs from what was saved (elements duplicated or lost on the next save)"}[bad == ""]))
+	}
+	r.Min("custom_marshalers", n, 5)
+}
+
+func stripLoadsAddr(v ssa.Value) ssa.Value {
+	if ld, ok := v.(*ssa.UnOp); ok && ld.Op == token.MUL {
+		return ld.X
+	}
+	return v
+}
